@@ -10,8 +10,13 @@ import (
 	"database/sql"
 	"path/filepath"
 	"strconv"
+	"strings"
+	"sync"
 	"testing"
 	"time"
+
+	"github.com/Cloud-Foundations/golib/pkg/log"
+	"github.com/Cloud-Foundations/golib/pkg/log/testlogger"
 )
 
 const (
@@ -83,6 +88,8 @@ type c15Env struct {
 	closed              bool
 	dirty               bool // a timed-out primary read (or an asynchronous save) may still be running
 	res                 *verifResult
+	restarts            int
+	restartTime         time.Duration
 }
 
 func c15Setup(t *testing.T, res *verifResult) *c15Env {
@@ -117,8 +124,134 @@ func c15Setup(t *testing.T, res *verifResult) *c15Env {
 	if e.admC, err = sql.Open("sqlite3", e.cacheFile); err != nil {
 		t.Fatal(err)
 	}
-	t.Cleanup(func() { e.admP.Close(); e.admC.Close() })
+	t.Cleanup(func() { e.admP.Close(); e.admC.Close() }) // (closes whatever handles are current at the end)
 	return e
+}
+
+// restart: the daemon process ends and a new one starts on the same data directory.  Everything the
+// old process held in memory is gone (its RuntimeState, its database handles); both database FILES
+// stay.  The new RuntimeState comes from the production loader (loadVerifyConfigFile -> initDB), is
+// unsealed like the first one, its background copier is stopped before its first copy (every
+// synchronisation is driven by the harness), and the environment's outage is put back in force.
+func (e *c15Env) restart() {
+	t0 := time.Now()
+	defer func() { e.restartTime += time.Since(t0) }()
+	e.settle()
+	mode := e.mode
+	old := e.st
+	verifOutage.clear()
+	if !e.closed {
+		old.db.Close()
+	}
+	old.cacheDB.Close()
+	e.admP.Close()
+	e.admC.Close()
+	st, err := loadVerifyConfigFile(e.env.configFile, testlogger.New(e.t))
+	if err != nil {
+		e.t.Fatalf("restart: loadVerifyConfigFile: %v", err)
+	}
+	select {
+	case st.dbDone <- struct{}{}:
+	case <-time.After(20 * time.Second):
+		e.t.Fatal("restart: background copier did not stop")
+	}
+	e.env.state = st
+	if code := e.env.inject(e.env.passphrase, true); code != 200 {
+		e.t.Fatalf("restart: unseal failed: %d", code)
+	}
+	select {
+	case <-st.SignerIsReady:
+	case <-time.After(5 * time.Second):
+		e.t.Fatalf("restart: SignerIsReady not signalled")
+	}
+	e.env.finishStartup()
+	st.db.Close()
+	st.cacheDB.Close()
+	if st.cacheDB, err = verifOpenFaultDB(e.cacheFile); err != nil {
+		e.t.Fatal(err)
+	}
+	e.st = st
+	e.closed = true
+	e.reopen()
+	// the harness's own view of the two files (a removed and re-created file is a new inode)
+	if e.admP, err = sql.Open("sqlite3", e.primFile); err != nil {
+		e.t.Fatal(err)
+	}
+	if e.admC, err = sql.Open("sqlite3", e.cacheFile); err != nil {
+		e.t.Fatal(err)
+	}
+	e.restarts++
+	e.mode = c15Up
+	e.setMode(mode)
+}
+
+// a logger for BackgroundDBCopy that keeps what the loop reports about its copies
+type c15CopierLog struct {
+	log.DebugLogger
+	mu       sync.Mutex
+	started  int
+	failures int
+	success  int
+}
+
+func (l *c15CopierLog) Printf(format string, v ...interface{}) {
+	l.mu.Lock()
+	if strings.HasPrefix(format, "err=") {
+		l.failures++
+	}
+	l.mu.Unlock()
+	l.DebugLogger.Printf(format, v...)
+}
+
+func (l *c15CopierLog) Debugf(level uint8, format string, v ...interface{}) {
+	l.mu.Lock()
+	switch {
+	case strings.Contains(format, "starting db copy"):
+		l.started++
+	case strings.Contains(format, "db copy success"):
+		l.success++
+	}
+	l.mu.Unlock()
+	l.DebugLogger.Debugf(level, format, v...)
+}
+
+func (l *c15CopierLog) counts() (started, failures, success int) {
+	l.mu.Lock()
+	defer l.mu.Unlock()
+	return l.started, l.failures, l.success
+}
+
+// One turn of the REAL background copier: state.BackgroundDBCopy is started with no initial sleep and
+// stopped through its done channel while it sleeps ProfileStorage.SyncInterval after its first turn (copy,
+// purge of the primary, purge of the cache).  Reports what the loop logged about its copy.
+func (e *c15Env) copierTurn() (reportedSuccess bool, turns int) {
+	lg := &c15CopierLog{DebugLogger: testlogger.New(e.t)}
+	done := make(chan struct{})
+	finished := make(chan struct{})
+	go func() {
+		e.st.BackgroundDBCopy(0, done, lg)
+		close(finished)
+	}()
+	// the loop is in its sleep once it has reported on its copy (and purged: two more statements)
+	deadline := time.Now().Add(20 * time.Second)
+	for {
+		_, f, s := lg.counts()
+		if f+s > 0 {
+			break
+		}
+		if time.Now().After(deadline) {
+			e.t.Fatal("copier: no turn within 20 s")
+		}
+		time.Sleep(200 * time.Microsecond)
+	}
+	select {
+	case done <- struct{}{}:
+	case <-time.After(20 * time.Second):
+		e.t.Fatal("copier: did not stop")
+	}
+	<-finished
+	st, f, s := lg.counts()
+	return s == 1 && f == 0, st
 }
 
 func (e *c15Env) reopen() {
